@@ -55,6 +55,19 @@ func init() {
 // formats, timezone, number format), as hosts send when the workspace settings changed
 var menu = append(append([]string{}, world.Events...), "env:alt:a")
 
+// envGroupsMark marks the roots with environment-dependent query groups (the default sender URN,
+// spelled out, so that the root is otherwise unchanged)
+const envGroupsMark = "tel:+12065551212"
+
+// menuFor is the resume menu of a root: roots with environment-dependent groups also get an
+// expiration and a timeout that carry a timezone 14 hours ahead and nothing else
+func menuFor(r *world.Root) []string {
+	if r.MsgURN == envGroupsMark {
+		return append(append([]string{}, menu...), "env:far:!expire", "env:far:a")
+	}
+	return menu
+}
+
 var kinds = []string{"A:ticket", "A:webhook", "A:usewh", "A:ctx", "A:now", "Eo", "Es", "W", "WT"}
 var triggers = []string{"manual", "manual_batch", "msg", "flow_action", "flow_action_batch"}
 
@@ -131,6 +144,16 @@ func roots(tier string) []world.Root {
 		// the host's clock reports its instants in a zone other than UTC: what a live run holds and
 		// what a re-read run holds must render alike (@run.created_on and friends are dumped raw)
 		out = append(out, world.Root{Flows: &loc[i], Assets: a, Trigger: "manual", Contact: spa, Opt: world.Options{MaxSteps: 8}, ClockZone: "America/Bogota"})
+		// query-based groups whose membership depends on the environment (calendar day of created_on):
+		// these roots also get resumes that carry a far timezone and nothing else (see menuFor)
+		ag := world.J{}
+		for k, v := range a {
+			ag[k] = v
+		}
+		ag["groups"] = append(append([]any{}, a["groups"].([]any)...),
+			world.J{"uuid": world.UUID("c02.g.day"), "name": "Created That Day", "query": `created_on = "2020-01-01"`},
+			world.J{"uuid": world.UUID("c02.g.after"), "name": "Created Later", "query": `created_on > "2020-01-01"`})
+		out = append(out, world.Root{Flows: &loc[i], Assets: ag, Trigger: "manual", Contact: spa, Opt: world.Options{MaxSteps: 8}, MsgURN: envGroupsMark})
 	}
 	return out
 }
@@ -520,7 +543,7 @@ func run(c *mc.Ctx) {
 				}
 			}
 			if live.err == "" && live.waiting && k < depth {
-				for _, ev := range menu {
+				for _, ev := range menuFor(root) {
 					explore(append(append([]string{}, events...), ev))
 				}
 			}
